@@ -46,16 +46,18 @@ def getNode (w : Which) (e : Entry) : Node := match w with | .g => e.global | .l
 def setNode (w : Which) (e : Entry) (n : Node) : Entry :=
   match w with | .g => { e with global := n } | .l => { e with local_ := n }
 
-@[inline] def modNode (ents : Nat → Entry) (w : Which) (i : Nat) (f : Node → Node) : Nat → Entry :=
-  upd ents i (setNode w (ents i) (f (getNode w (ents i))))
+/-- apply `f` to the chosen node of an entry.  (Used as `upd ents i (modEntry w (ents i) f)`: a
+    definition that *returns* a function is compiled eta-expanded and would redo its body on every
+    lookup, which makes chains of updates exponentially slow.) -/
+def modEntry (w : Which) (e : Entry) (f : Node → Node) : Entry := setNode w e (f (getNode w e))
 
 /-- `appendEntry` -/
 def appendEntry (ents : Nat → Entry) (l : HList) (w : Which) (e : Nat) : (Nat → Entry) × HList :=
   let l1 := if l.head.isNone then { l with head := some e } else l
   let ents1 := match l1.tail with
     | some t =>
-      let en := modNode ents w t (fun n => { n with next := some e })
-      modNode en w e (fun n => { n with prev := some t })
+      let en := upd ents t (modEntry w (ents t) (fun n => { n with next := some e }))
+      upd en e (modEntry w (en e) (fun n => { n with prev := some t }))
     | none => ents
   (ents1, { l1 with tail := some e, count := l1.count + 1 })
 
@@ -64,14 +66,14 @@ def removeEntry (ents : Nat → Entry) (l : HList) (w : Which) (e : Nat) : (Nat 
   let n := getNode w (ents e)
   if n.removed then (ents, l)
   else
-    let ents := modNode ents w e (fun n => { n with removed := true })
+    let ents := upd ents e (modEntry w (ents e) (fun n => { n with removed := true }))
     let l := if l.head = some e then { l with head := n.next } else l
     let ents := match n.next with
-      | some x => modNode ents w x (fun m => { m with prev := n.prev })
+      | some x => upd ents x (modEntry w (ents x) (fun m => { m with prev := n.prev }))
       | none => ents
     let l := if l.tail = some e then { l with tail := n.prev } else l
     let ents := match n.prev with
-      | some x => modNode ents w x (fun m => { m with next := n.next })
+      | some x => upd ents x (modEntry w (ents x) (fun m => { m with next := n.next }))
       | none => ents
     (ents, { l with count := l.count - 1 })
 
@@ -182,9 +184,9 @@ def closeAll : Nat → Option Nat → State → State
   | _ + 1, none, s => s
   | n + 1, some e, s =>
     let s1 := closeEntry s e
-    let en := modNode (modNode s1.ents .g e (fun m => { m with removed := true })) .l e
-                (fun m => { m with removed := true })
-    closeAll n (s1.ents e).global.next { s1 with ents := en }
+    let en := s1.ents e
+    let en := { en with global := { en.global with removed := true }, local_ := { en.local_ with removed := true } }
+    closeAll n (s1.ents e).global.next { s1 with ents := upd s1.ents e en }
 
 def close (s : State) : State :=
   let s1 := closeAll (s.next + 1) s.order.head s
